@@ -10,15 +10,18 @@ Open Scope Z_scope.
    deletion with the steps of querier creation (split at the points where the real DB.Querier can
    be preempted), iteration and Close: every iteration of every querier returns exactly the
    committed samples of its range - none missing, none twice. *)
+(* [no_view tr]: the trace contains no step of DB.CompactStaleHead / DB.CompactSelectedSeries (an
+   extension beyond the maintenance kinds the property lists; for those see
+   C06_view_evict_refuted below). *)
 Theorem C06_exactly_once : forall s0 tr s outs,
-  wf_init s0 = true -> run s0 tr = Some (s, outs) ->
+  wf_init s0 = true -> no_view tr = true -> run s0 tr = Some (s, outs) ->
   forall q mint maxt res, In (q, mint, maxt, res) outs ->
     NoDup res /\ (forall x, In x res <-> (In x (committed s0) /\ mint <= s_t x <= maxt)).
 Proof. exact exactly_once. Qed.
 
 (* ... and if the committed samples have distinct (series, timestamp) keys, no key is returned twice *)
 Theorem C06_exactly_once_keys : forall s0 tr s outs,
-  wf_init s0 = true -> run s0 tr = Some (s, outs) ->
+  wf_init s0 = true -> no_view tr = true -> run s0 tr = Some (s, outs) ->
   (forall a b, In a (committed s0) -> In b (committed s0) -> s_sid a = s_sid b -> s_t a = s_t b -> a = b) ->
   forall q mint maxt res, In (q, mint, maxt, res) outs ->
     NoDup (map (fun x => (s_sid x, s_t x)) res).
@@ -97,4 +100,39 @@ Example ex_block_release_waits :
    first_bad ex_s1 [EQBegin 1 0 50; EQFinish 1; EBWritten 2 [0; 1] 0 200; ESwapped;
                     EBlockClosing 0; EQIter 1; EQClose 1; EBlockClosed 0; EBlockClosing 1; EBlockClosed 1] 0)
   = (5, -1).
+Proof. vm_compute. reflexivity. Qed.
+
+(* ---- stale-series / selected-series compaction (Head.truncateSeries) ---------------------- *)
+
+(* FULL STATEMENT THAT FAILS: C06_exactly_once without the [no_view] hypothesis.
+   Head.truncateSeries documents its maxt as inclusive but hands it to
+   WaitForPendingReadersInTimeRange, which treats its upper bound as exclusive (maxt--): an open
+   querier whose mint equals maxt (= Head.MaxTime(), the newest sample) is not waited for, the
+   series is evicted under it and it misses the sample at maxt.  The faithful model reproduces it
+   (reproduced on the real code: shape key stale-evict-reader-at-maxt, notes/C06.md). *)
+Definition ex_s2 : state :=
+  mkSt [mkS 0 10 1; mkS 0 50 2] 10 [] 4611686018427387904 (-4611686018427387904)
+       [] [] [] [] 0 false 0 Idle [] [] [] [] false.
+Definition ex_tr3 : list ev :=
+  [EQBegin 1 50 90; EQOpenHead 1; EQFinish 1; EVWritten 1 0 100 [0]; ESwapped; EVAwaited 50;
+   EVEvicted [0]; EQIter 1; EQClose 1].
+
+Theorem C06_view_evict_refuted :
+  exists s0 tr s outs q mint maxt res x,
+    wf_init s0 = true /\ run s0 tr = Some (s, outs) /\ In (q, mint, maxt, res) outs /\
+    In x (committed s0) /\ mint <= s_t x <= maxt /\ ~ In x res.
+Proof.
+  exists ex_s2, ex_tr3.
+  eexists _, _, 1, 50, 90, [], (mkS 0 50 2).
+  split; [vm_compute; reflexivity|].
+  split; [vm_compute; reflexivity|].
+  split; [left; reflexivity|].
+  split; [vm_compute; auto|].
+  split; [unfold Z.le; cbn; split; discriminate|].
+  intros [].
+Qed.
+
+(* with the querier one millisecond wider the wait does its job: the eviction is not enabled *)
+Example ex_view_wait_blocks :
+  first_bad ex_s2 [EQBegin 1 49 90; EQOpenHead 1; EQFinish 1; EVWritten 1 0 100 [0]; ESwapped; EVAwaited 50] 0 = 5.
 Proof. vm_compute. reflexivity. Qed.
